@@ -57,6 +57,74 @@ func loopBound(l *natLoop) (string, token.Token) {
 	return pathOf(c.Y), c.Op
 }
 
+// tripCount: the loop runs exactly N times for a recognised counted form; returns the access path
+// of N: `i := 0; i < N; i++`, `i := N; i > 0; i--`, `i := N-1; i >= 0; i--`, `i := 1; i <= N; i++`.
+func tripCount(l *natLoop) (string, bool) {
+	iff, ok := l.head.Instrs[len(l.head.Instrs)-1].(*ssa.If)
+	if !ok {
+		return "", false
+	}
+	c, ok := iff.Cond.(*ssa.BinOp)
+	if !ok {
+		return "", false
+	}
+	// which successor stays in the loop
+	stay := l.body[l.head.Succs[0]]
+	op := c.Op
+	if !stay {
+		op = negateOp(op)
+	}
+	x, y := c.X, c.Y
+	phi, isPhi := x.(*ssa.Phi)
+	if !isPhi {
+		if p2, ok2 := y.(*ssa.Phi); ok2 {
+			phi, x, y, op = p2, y, x, swapOp(op)
+		} else {
+			return "", false
+		}
+	}
+	if phi.Block() != l.head || len(phi.Edges) != 2 {
+		return "", false
+	}
+	var start ssa.Value
+	var step int64
+	for _, e := range phi.Edges {
+		if bo, isB := e.(*ssa.BinOp); isB && bo.X == ssa.Value(phi) {
+			if k, isK := constInt(bo.Y); isK {
+				if bo.Op == token.ADD {
+					step = k
+				} else if bo.Op == token.SUB {
+					step = -k
+				}
+				continue
+			}
+		}
+		start = e
+	}
+	if start == nil || (step != 1 && step != -1) {
+		return "", false
+	}
+	sk, startConst := constInt(start)
+	yk, boundConst := constInt(y)
+	switch {
+	case step == 1 && op == token.LSS && startConst && sk == 0:
+		return pathOf(y), true
+	case step == 1 && op == token.LEQ && startConst && sk == 1:
+		return pathOf(y), true
+	case step == -1 && op == token.GTR && boundConst && yk == 0:
+		return pathOf(start), true
+	case step == -1 && op == token.GEQ && boundConst && yk == 1:
+		return pathOf(start), true
+	case step == -1 && op == token.GEQ && boundConst && yk == 0:
+		if bo, isB := start.(*ssa.BinOp); isB && bo.Op == token.SUB {
+			if k, isK := constInt(bo.Y); isK && k == 1 {
+				return pathOf(bo.X), true
+			}
+		}
+	}
+	return "", false
+}
+
 func init() {
 	register(&Rule{ID: "C19.R1", Props: []string{"C19"}, Min: 2, Needs: NeedMain,
 		Doc: "linear hand-off: in the dispatcher a job received from the job queue is sent exactly once, to the job channel of a worker received from the idle-worker queue; in the worker loop a job received from its channel is invoked exactly once, synchronously, before the next iteration",
@@ -204,8 +272,7 @@ func init() {
 						if fn == start {
 							for _, l := range loopsOf(fn) {
 								if l.body[in.Block()] {
-									b, op := loopBound(l)
-									if op == token.LSS && strings.HasPrefix(b, "cap(") && strings.HasSuffix(b, ".WorkerQueue)") {
+									if b, ok := tripCount(l); ok && strings.HasPrefix(b, "cap(") && strings.HasSuffix(b, ".WorkerQueue)") {
 										okk = true
 									}
 								}
@@ -214,6 +281,19 @@ func init() {
 						r.Check(okk, fname(fn), "workers started", in.Pos(), "exactly cap(WorkerQueue) workers are started, in Pool.Start", "workers are not started exactly `for i := 0; i < cap(WorkerQueue); i++` in Pool.Start: more workers than configured run jobs concurrently (or fewer)")
 					}
 				})
+			}
+			// capacities of the job queue and of the handshake channels
+			if npf := r.w.Func(gpoolPkg, "NewPool"); npf != nil && len(npf.Params) >= 2 {
+				jobCap, found := "", false
+				eachInstr(npf, func(in ssa.Instruction) {
+					if mc, ok := in.(*ssa.MakeChan); ok {
+						if ch, ok := mc.Type().Underlying().(*types.Chan); ok && strings.HasSuffix(ch.Elem().String(), "gpool.Job") {
+							found = true
+							jobCap = pathOf(mc.Size)
+						}
+					}
+				})
+				r.Check(found && jobCap == npf.Params[1].Name(), fname(npf), "job queue capacity", npf.Pos(), "JobQueue = make(chan Job, "+npf.Params[1].Name()+")", "the job queue is made with capacity %q, not the configured queue length %s: a submitter blocks although the configured queue is not full (or never blocks)", jobCap, npf.Params[1].Name())
 			}
 			np := r.w.Func(gpoolPkg, "NewPool")
 			okCap := false
@@ -298,10 +378,38 @@ func init() {
 				if takes == 0 {
 					continue
 				}
+				if tc, isTC := tripCount(l); isTC {
+					b, op = tc, token.LSS
+				}
 				if op == token.LSS && strings.HasPrefix(b, "cap(") && strings.HasSuffix(b, ".WorkerQueue)") && takes == 1 && sends == 1 && recvs == 1 {
 					okk = true
 				} else {
 					why = fmt.Sprintf("the collecting loop runs to %s (op %s) with %d take(s), %d stop send(s), %d stop receive(s)", b, op, takes, sends, recvs)
+				}
+			}
+			// the stop/acknowledge handshake uses one channel in both directions: the requester sends and then
+			// receives on it. That only works on an unbuffered channel — with a buffer the requester reads its own
+			// token back and returns while the other side never saw the request.
+			if sp := r.w.Pkg(gpoolPkg); sp != nil {
+				for _, f := range r.w.Funcs(sp) {
+					eachInstr(f, func(in ssa.Instruction) {
+						mc, ok := in.(*ssa.MakeChan)
+						if !ok {
+							return
+						}
+						for _, ref := range *mc.Referrers() {
+							st, ok := ref.(*ssa.Store)
+							if !ok || st.Val != ssa.Value(mc) {
+								continue
+							}
+							fv, _, ok := fieldAddrOf(st.Addr)
+							if !ok || !strings.EqualFold(fv.Name(), "stop") {
+								continue
+							}
+							k, isK := constInt(mc.Size)
+							r.Check(isK && k == 0, fname(f), "handshake channel "+fv.Name()+" is unbuffered", in.Pos(), "make(chan struct{}) without capacity", "the stop/acknowledge channel %s is made with a buffer (%s): Release (or the dispatcher) receives its own stop token and returns while workers still run jobs", fv.Name(), pathOf(mc.Size))
+						}
+					})
 				}
 			}
 			r.Check(okk, fname(disp), "stop branch collects cap(WorkerQueue) workers", disp.Pos(), "every worker is taken from the idle queue and stopped with a handshake", "%s: Release returns while jobs are still running, or workers are never stopped", why)
